@@ -214,8 +214,18 @@ class ScriptObjectHistories:
         return {"canon": hist, "viols": viols, "label": label}
 
 
+def _ev_value(i):
+    return [0xfc, 0xfd, 0xffff, 0x10000][i % 4] + 5 * (i // 4) if i % 2 else 1000 + 37 * i
+
+
 def execute(case):
     k = case.get("k")
+    if "hist" in case and case.get("layer") == "varint-and-script-revisits":
+        from ..bfs import PureCalls
+        r = isolated(PureCalls(10**6, lambda i: chk_varint(_ev_value(i))[1] + chk_roundtrip([("f", 1 + (i * 7) % 500)])[1], P).run, case["hist"])
+        for v in r["viols"]:
+            v["case"] = case
+        return R(r["label"], viols=r["viols"])
     if "hist" in case:
         r = isolated(ScriptObjectHistories().run, case["hist"])
         for v in r["viols"]:
@@ -303,4 +313,8 @@ def run(ctx):
                                                                                   2**32, 2**40, 2**63)], execute, parallel=False)
     from ..bfs import bfs
     bfs(ctx, "script-object-histories", ScriptObjectHistories(), 4 if ctx.thorough else 3)
+    from ..bfs import long_histories, eviction_probe, PureCalls
+    evm = PureCalls(10**6, lambda i: chk_varint(_ev_value(i))[1] + chk_roundtrip([("f", 1 + (i * 7) % 500)])[1], P)
+    eviction_probe(ctx, "varint-and-script-revisits", evm, lambda i: i)
+    long_histories(ctx, "script-object-histories+long", ScriptObjectHistories(), rotations=8 if ctx.thorough else 4, rounds=3)
     return {}
